@@ -39,6 +39,15 @@ def chunks(tier, seed):
     return mk_chunks(ID, tier, seed, TOTAL[tier], 16, timeout=900 if tier == "quick" else 3000)
 
 
+def _korder(v):
+    """insertion order of the keys of every dict inside v (observable to user logic: next(iter(d)))"""
+    if isinstance(v, dict):
+        return [(k, _korder(x)) for k, x in v.items()]
+    if isinstance(v, (list, tuple)):
+        return [_korder(x) for x in v]
+    return None
+
+
 def _state_of(interp):
     actors = getattr(interp, "_actors", {}) or {}
     try:
@@ -46,20 +55,26 @@ def _state_of(interp):
     except Exception:  # noqa: BLE001
         sysids = None
     return {"cfg": config_of(interp), "ctx": copy.deepcopy(interp.context),
+            "ctxorder": _korder(interp.context),
             "status": interp.status, "output": copy.deepcopy(interp.output),
             "error": interp.error is not None, "actors": sorted(actors.keys()), "system": sysids,
-            "kids": {k: (sorted(config_of(a)), copy.deepcopy(a.context), a.status)
-                     for k, a in sorted(actors.items())}}
+            "kids": {k: _kid_tree(a) for k, a in sorted(actors.items())}}
+
+
+def _kid_tree(a):
+    """a child's observable state and, below it, its own children (generated ids left out)"""
+    below = sorted((_kid_tree(g) for g in (getattr(a, "_actors", {}) or {}).values()), key=repr)
+    return (sorted(config_of(a)), copy.deepcopy(a.context), a.status, below)
 
 
 def _diff_state(a, b):
-    for f in ("cfg", "ctx", "status", "output", "error", "actors", "system", "kids"):
+    for f in ("cfg", "ctx", "ctxorder", "status", "output", "error", "actors", "system", "kids"):
         if a[f] != b[f]:
             return f
     return None
 
 
-FIELD = {"cfg": "configuration", "ctx": "context", "status": "status", "output": "output",
+FIELD = {"cfg": "configuration", "ctx": "context", "ctxorder": "context-key-order", "status": "status", "output": "output",
          "error": "error-flag", "actors": "actor-ids", "system": "systemIds", "kids": "child-state"}
 
 
@@ -72,6 +87,10 @@ def _logic_extras(case, rec):
             ctx.setdefault("log", []).append(_n)
             if len(ctx["log"]) > 6:
                 del ctx["log"][0]
+            # a nested dict filled in firing order (not alphabetical): a FIFO kept in a dict
+            seen = ctx.setdefault("seen", {})
+            seen.pop(_n, None)
+            seen[_n] = len(seen)
         extra[t.marker] = _a
     return extra
 
@@ -307,13 +326,19 @@ def corruption(res: Result, snap: str, machine, case, idx):
 # ---------------------------------------------------------------------------
 def actor_case(res: Result, spec, idx):
     rng = rng_for(spec["seed"], ID, spec["chunk"], idx, "actors")
-    kid_cfg = {"id": "kid", "initial": "a", "context": {"c": 0}, "states": {
-        "a": {"on": {"PING": {"target": "b", "actions": ["bump"]}}},
-        "b": {"on": {"PING": {"target": "a", "actions": ["bump"]}}}}}
-
     def bump(i, ctx, e, a):
         ctx["c"] += 1
-    kid = create_machine(kid_cfg, logic=MachineLogic(actions={"bump": bump}))
+    gkid_cfg = {"id": "gkid", "initial": "idle", "context": {"c": 0}, "states": {
+        "idle": {"on": {"PING": {"target": "hit", "actions": ["bump"]}}},
+        "hit": {"on": {"PING": {"target": "idle", "actions": ["bump"]}}}}}
+    gkid = create_machine(gkid_cfg, logic=MachineLogic(actions={"bump": bump}))
+    # a child spawns a grandchild under a GENERATED id (spawn_<service>) and relays to it by service key
+    relay = {"SPAWNG": {"actions": [{"type": "spawn_gkid"}]},
+             "PINGG": {"actions": [{"type": "xstate.sendTo", "params": {"to": "gkid", "event": "PING"}}]}}
+    kid_cfg = {"id": "kid", "initial": "a", "context": {"c": 0}, "on": relay, "states": {
+        "a": {"on": {"PING": {"target": "b", "actions": ["bump"]}}},
+        "b": {"on": {"PING": {"target": "a", "actions": ["bump"]}}}}}
+    kid = create_machine(kid_cfg, logic=MachineLogic(actions={"bump": bump}, services={"gkid": gkid}))
 
     def sc(src, **p):
         return {"type": "xstate.spawnChild", "params": dict(src=src, **p)}
@@ -328,6 +353,8 @@ def actor_case(res: Result, spec, idx):
             "PINGSYS": {"actions": [st_("sys1", "PING")]},
             "PING2": {"actions": [st_("k2", "PING")]},
             "STOP1": {"actions": [{"type": "xstate.stopChild", "params": {"id": "k1"}}]},
+            "K1SPAWNG": {"actions": [st_("k1", "SPAWNG")]},
+            "K1PINGG": {"actions": [st_("k1", "PINGG")]},
             "GO": "busy"}},
         "busy": {"on": {"BACK": "idle", "PING2": {"actions": [st_("k2", "PING")]}}}}}
     machine = create_machine(parent_cfg, logic=MachineLogic(services={"kid": kid}))
@@ -338,7 +365,9 @@ def actor_case(res: Result, spec, idx):
         if "k1" not in have:
             opts += ["SPAWN1", "SPAWN1"]
         else:
-            opts += ["STOP1"]
+            opts += ["STOP1", "K1PINGG", "K1PINGG"]
+            if "g" not in have:
+                opts += ["K1SPAWNG", "K1SPAWNG"]
         if "k2" not in have:
             opts += ["SPAWN2"]
         e = rng.choice(opts)
@@ -350,22 +379,35 @@ def actor_case(res: Result, spec, idx):
                 have.add("k2")
             elif e == "STOP1":
                 have.discard("k1")
+                have.discard("g")
+            elif e == "K1SPAWNG" and "k1" in have:
+                have.add("g")
             elif e == "GO":
                 where = "busy"
         elif e == "BACK":
             where = "idle"
 
+    unsettled = []
+
     def settle_sync(it):
         t0 = time.time()
-        while time.time() - t0 < 1.0:
-            kids = list(it._actors.values())
+        while time.time() - t0 < 6.0:
+            kids, ids = [], set()
+
+            def walk(x):
+                for aid, a in list((getattr(x, "_actors", {}) or {}).items()):
+                    kids.append(a)
+                    ids.add(aid)
+                    walk(a)
+            walk(it)
             zombies = [t for t in observe.engine_threads() if t.name.startswith("actor-")
-                       and t.name[6:] not in it._actors]
+                       and t.name[6:] not in ids]
             if not zombies and all(
                     a.status != "uninitialized" and not getattr(a, "_is_processing", False)
                     and not len(getattr(a, "_event_queue", ())) for a in kids):
                 return
             time.sleep(0.002)
+        unsettled.append(1)      # a loaded machine: this script is not judged
 
     for engine in ("sync", "async"):
         states, snaps = [], []
@@ -390,6 +432,9 @@ def actor_case(res: Result, spec, idx):
                         bad = (d, i + 1)
                         break
                 twin.stop()
+                if unsettled:
+                    res.count("actor-template.skipped-unsettled")
+                    break
                 _actor_report(res, engine, k, bad, script, idx)
                 if bad:
                     break
